@@ -264,7 +264,7 @@ def make_trid_world(kinds, nsubs=0, own=None, with_map=False, perm=True):
             base_build()
             if perm:
                 w.driver.bus_traffic.register(lambda drv, c, r, e: w.traffic_batches.append((id(c), w.loop.batches)))
-            if with_map:
+            if with_map and with_map != "rebound":
                 m = DeviceInstanceTypeMapper()
                 if with_map != "late":
                     m.add_type(short_address=5, instance_number=1, instance_type=3)
@@ -272,9 +272,21 @@ def make_trid_world(kinds, nsubs=0, own=None, with_map=False, perm=True):
                 w.the_map = m
         w.build = build
         base_extra = w.extra_events
+        w.rebound = False
+
+        def rebind():
+            # the application assigns ANOTHER map object to the public attribute while the driver is up and watching
+            m = DeviceInstanceTypeMapper()
+            m.add_type(short_address=5, instance_number=1, instance_type=3)
+            w.driver.dev_inst_map = m
+            w.rebound = True
+            w.rebind_pos = len(w.trace)
+            w.rebind_reports = len([1 for k, c, r, e in w.traffic if k == 0])
 
         def extra():
             ev = list(base_extra())
+            if with_map == "rebound" and not w.rebound:
+                ev.append(("rebind-map", lambda: True, rebind, "event"))
             for k in range(w.nsubs):
                 if k not in w.subhandles and k not in w.subwindows:
                     ev.append((f"sub:{k}", lambda: True, (lambda k=k: _sub(w, k)), "event"))
@@ -369,7 +381,26 @@ def judge_trid(res, cfg, w, obs):
     poss = [norm(p) for p in poss]
     if w.status != "quiescent":
         add_violation(res, "C20:tridonic:horizon", f"{cfg}: horizon", case)
-    if got not in poss:
+    if cfg.get("with_map") == "rebound":
+        # (histories of single forward frames only: report j belongs to the j-th frame.)  A frame delivered after the
+        # application re-bound driver.dev_inst_map is decoded with the NEW map; one already reported before, with none;
+        # one that was in flight at that moment, with either
+        if not getattr(w, "rebound", False):
+            raise RuntimeError(f"HARNESS: the map was never re-bound in {w.trace[-10:]}")
+        before = [norm(p) for p in ref_buswatch(w.effective, "nomap")[0]]
+        fpos = [w.effective_pos[i] for i, it in enumerate(w.effective) if it[0] == "F"]
+        ok = False
+        for a, b in zip(before, poss):
+            if not (len(a) == len(b) == len(got) == len(fpos)):
+                continue
+            ok = ok or all((g == y if fpos[j] > w.rebind_pos else g == x if j < w.rebind_reports else g in (x, y))
+                           for j, (g, x, y) in enumerate(zip(got, a, b)))
+        observe(res, "tridonic_map_rebound_runs", 1)
+        if not ok:
+            add_violation(res, "C20:tridonic:decoded-with-stale-map", f"history {cfg['kinds']}: driver.dev_inst_map re-bound to another map (type 3 for 5/1) at trace "
+                          f"position {w.rebind_pos} after {w.rebind_reports} reports; frames arrived at {fpos}; reported {got}; with the old map {before[0]}, "
+                          f"with the new {poss[0]}", case)
+    elif got not in poss:
         exp = poss[0]
         # classify: missing / duplicated / wrong decode / wrong pairing
         key = "reports-differ"
@@ -873,6 +904,8 @@ def shards(tier):
     for nsubs in (1, 2) if tier == "quick" else (1, 2, 3):
         out.append(("trid", sel, 2 if nsubs < 3 else 1, nsubs, None))
     out.append(("trid", sel + [("event-devinst",), ("unknown24", "event-devinst")], 2, 0, "map"))
+    # the application assigns ANOTHER map object to driver.dev_inst_map while the watcher is running (at every point of the history)
+    out.append(("trid", [("event-devinst",), ("event-devinst", "event-devinst"), ("plain", "event-devinst", "event-devinst")], 2, 0, "map-rebound"))
     for own in ("query", "twice"):
         out.append(("trid", [("plain",), ("query+answer",), ("config-once",), ("edt+ext",)], 2 if tier == "quick" else 3, 0, own))
     # nobody subscribed at first, one subscriber joins at every boundary (a watcher that only works while somebody listens
@@ -937,7 +970,7 @@ def run_shard(shard):
     elif k == "trid":
         _, hists, bound, nsubs, opt = shard
         for h in hists:
-            cfg = dict(kinds=list(h), nsubs=nsubs, own=opt if opt in ("query", "twice") else None, with_map=(opt == "map"), bound=bound)
+            cfg = dict(kinds=list(h), nsubs=nsubs, own=opt if opt in ("query", "twice") else None, with_map=("rebound" if opt == "map-rebound" else opt == "map"), bound=bound)
             run_trid(cfg, bound, res, outs)
         sample(res, {"driver": "tridonic", "histories": len(hists), "example": list(hists[-1]), "bound": bound, "subscribers": nsubs, "option": opt})
     elif k == "dual":
